@@ -2,6 +2,7 @@
 import ecount
 import eptr
 import eslot
+import eslotmodel
 import eidx
 import eslab
 import eswap
@@ -147,6 +148,11 @@ def run(ctx):
     ctx.explain("E-SLOT.bound: where a function compares an index with the slot array's length and then uses get_unchecked(index), "
                 "the call is unreachable once the CFG edges that establish index < len are removed (a `<=` or flipped test lets the "
                 "bump allocator write one slot past the allocation).")
+    ctx.explain("E-SLOT.model: add_node / get_slot_from_shared / use_free_slot interpreted on a model store (chunk size 4, 10 slots): one "
+                "worker thread, one foreign thread, two alternating threads and recycled slots from the shared free list -- every slot is "
+                "handed out exactly once, each node is written to its own slot, and OutOfMemory comes exactly when nothing is left.")
+    nsm = eslotmodel.run(ctx, F)
+    ctx.floor("E-SLOT.model", "interpreted allocation sequences", nsm, 6)
     nsb = eslot.run(ctx, F)
     ctx.floor("E-SLOT.bound", "get_unchecked calls with a local length comparison", nsb, 2)
     ecount.run(ctx, F, ('oxidd_manager_index', 'oxidd_manager_pointer', 'arcslab'))
